@@ -6,27 +6,31 @@ import KdVerif.Spec.ContainerV2
 namespace KdVerif
 open Reader Spec
 
-theorem takeWhile_name (name : Bytes) (k : Nat) (h0 : ∀ b ∈ name, b ≠ 0) :
-    (name ++ zeros (k + 1)).takeWhile (· ≠ 0) = name := by
+/-- a C string ends at its FIRST NUL, whatever follows it. -/
+theorem takeWhile_name (name rest : Bytes) (h0 : ∀ b ∈ name, b ≠ 0) :
+    (name ++ 0 :: rest).takeWhile (· ≠ 0) = name := by
   induction name with
-  | nil => simp [zeros, List.replicate_succ]
+  | nil => simp
   | cons b t ih =>
     have hb : b ≠ 0 := h0 b (by simp)
     have := ih (fun x hx => h0 x (by simp [hx]))
     simp only [List.cons_append, List.takeWhile_cons]
     simp only [hb, ne_eq, not_false_eq_true, decide_true, if_true, this]
 
-theorem cstringOf_name (name : Bytes) (k : Nat) (h0 : ∀ b ∈ name, b ≠ 0) (hu : validUtf8 name = true) :
-    cstringOf (name ++ zeros (k + 1)) = .ok name := by
+theorem cstringOf_name (name rest : Bytes) (h0 : ∀ b ∈ name, b ≠ 0) (hu : validUtf8 name = true) :
+    cstringOf (name ++ 0 :: rest) = .ok name := by
   unfold cstringOf
-  simp only [takeWhile_name name k h0, hu, if_true]
-  have : ¬ name.length = (name ++ zeros (k + 1)).length := by simp [zeros]
+  simp only [takeWhile_name name rest h0, hu, if_true]
+  have : ¬ name.length = (name ++ 0 :: rest).length := by simp
   simp only [this, if_false]
+
+theorem field_length (t : V2Thread) (h : t.name.length + t.junk.length ≤ 19) : (t.name ++ t.fieldTail).length = 20 := by
+  simp [V2Thread.fieldTail, zeros]; omega
 
 def toEntry (t : V2Thread) : ThreadEntry := ⟨t.tid, t.pid, t.name⟩
 
-theorem encodeThread_length (t : V2Thread) (h : t.name.length ≤ 19) : (encodeThread t).length = 32 := by
-  simp [encodeThread, toLE_length, zeros]; omega
+theorem encodeThread_length (t : V2Thread) (h : t.name.length + t.junk.length ≤ 19) : (encodeThread t).length = 32 := by
+  simp [encodeThread, toLE_length, V2Thread.fieldTail, zeros]; omega
 
 theorem threadEntry_cont {r : Reader} {t : V2Thread} {s : Bytes} (h : r.rest = encodeThread t ++ s)
     (wf : t.WF) : ∃ r', threadEntry r = (.ok (toEntry t), r') ∧ Cont r r' s := by
@@ -34,12 +38,10 @@ theorem threadEntry_cont {r : Reader} {t : V2Thread} {s : Bytes} (h : r.rest = e
   simp only [encodeThread, List.append_assoc] at h
   obtain ⟨r1, e1, c1⟩ := int64ul_cont h h1
   obtain ⟨r2, e2, c2⟩ := int32ul_cont c1.1 h2
-  have hl : (t.name ++ zeros (20 - t.name.length)).length = 0x14 := by simp [zeros]; omega
-  have c2' : r2.rest = (t.name ++ zeros (20 - t.name.length)) ++ s := by rw [c2.1]; simp
+  have hl : (t.name ++ t.fieldTail).length = 0x14 := field_length t h4
+  have c2' : r2.rest = (t.name ++ t.fieldTail) ++ s := by rw [c2.1]; simp
   obtain ⟨r3, e3, c3⟩ := readExact_cont c2' hl
-  have hk : 20 - t.name.length = (19 - t.name.length) + 1 := by omega
-  have hc : cstringOf (t.name ++ zeros (20 - t.name.length)) = .ok t.name := by
-    rw [hk]; exact cstringOf_name _ _ h3 h5
+  have hc : cstringOf (t.name ++ t.fieldTail) = .ok t.name := cstringOf_name _ _ h3 h5
   refine ⟨r3, ?_, c3.1, by rw [c3.2, c2.2, c1.2]⟩
   unfold threadEntry
   rw [RM.bind_ok e1, RM.bind_ok e2]
